@@ -138,3 +138,30 @@ pub fn render_fen(b: &Board) -> String {
     s.push_str(&format!(" {} {}", b.get_halfmove_clock(), b.fullmove_counter));
     s
 }
+
+/// FEN placement field of a 64-square grid (index = rank * 8 + file, rank 0 = first rank)
+pub fn grid_placement(grid: &[Option<char>; 64]) -> String {
+    let mut fen = String::new();
+    for rank in (0..8).rev() {
+        let mut e = 0;
+        for file in 0..8 {
+            match grid[rank * 8 + file] {
+                None => e += 1,
+                Some(c) => {
+                    if e > 0 {
+                        fen.push_str(&e.to_string());
+                        e = 0;
+                    }
+                    fen.push(c);
+                }
+            }
+        }
+        if e > 0 {
+            fen.push_str(&e.to_string());
+        }
+        if rank > 0 {
+            fen.push('/');
+        }
+    }
+    fen
+}
